@@ -22,6 +22,16 @@ type aS struct {
 	p *int
 }
 
+// composites whose pointers / interfaces sit one level further down
+type aIn struct{ P *int }
+type aOut struct {
+	X  int
+	In aIn
+}
+type aArrP struct{ Ps [2]*int }
+type aBody struct{ V interface{} }
+type aIf struct{ Body aBody }
+
 type aErr struct{ s string }
 
 func (e *aErr) Error() string { return "aErr" }
@@ -58,6 +68,9 @@ func argPools(rng *rand.Rand, extra int) []argPool {
 	add("string", "", "", "a", "A", "1", "1.0", "true", "0x1", "a", "é", "é")
 	add("bool", false, true, false, true)
 	add("struct", aS{}, aS{}, aS{1, "x", nil}, aS{1, "x", nil}, aS{1, "y", nil}, aS{1, "x", ip(3)}, aS{1, "x", ip(3)}, aS{1, "x", ip(4)})
+	add("nested", aOut{}, aOut{}, aOut{1, aIn{ip(3)}}, aOut{1, aIn{ip(3)}}, aOut{1, aIn{ip(4)}}, aOut{1, aIn{nil}}, aOut{2, aIn{ip(3)}})
+	add("arrptr", aArrP{}, aArrP{}, aArrP{[2]*int{ip(1), ip(2)}}, aArrP{[2]*int{ip(1), ip(2)}}, aArrP{[2]*int{ip(1), ip(3)}}, aArrP{[2]*int{ip(1), nil}})
+	add("nestediface", aIf{}, aIf{}, aIf{aBody{[]int{1}}}, aIf{aBody{[]int{1}}}, aIf{aBody{[]int{2}}}, aIf{aBody{3}}, aIf{aBody{3}}, aIf{aBody{map[string]int{"a": 1}}}, aIf{aBody{map[string]int{"a": 1}}})
 	add("array", [2]int{}, [2]int{}, [2]int{1, 2}, [2]int{2, 1}, [2]int{1, 2})
 	add("slice", []int{}, []int(nil), []int{}, []int{1}, []int{1}, []int{1, 2}, nil)
 	add("map", map[string]int{}, map[string]int(nil), map[string]int{}, map[string]int{"a": 1}, map[string]int{"a": 1}, map[string]int{"a": 2}, nil)
